@@ -1133,6 +1133,8 @@ class Engine:
 
     def havoc_obj(self, o):
         if isinstance(o, DictObj):
+            if o.kkind is None or o.vkind is None:
+                raise Unsupported("havoc of a dictionary whose key / value kinds are not known yet")
             ks, vs = self.sort_of_kind(o.kkind), self.sort_of_kind(o.vkind)
             n = self.fresh_name(o.name)
             o.has = z3.Const(n + ".has", z3.ArraySort(ks, BoolS))
